@@ -58,6 +58,8 @@ def current_texts(case):
     """file name -> text after the case's edits (python re-implementation of the LSP splice)"""
     docs = {n: Doc(t) for n, t in case.get("files", [])}
     for e in case.get("edits", []):
+        if (e.get("kind") or "").startswith("reload-config"):
+            continue
         if e["file"] not in docs:
             docs[e["file"]] = Doc("")
         docs[e["file"]].change(e.get("range"), e["text"])
@@ -489,6 +491,29 @@ def panic_from_stderr(text):
 
 _DISK_DOCS = {}
 
+
+def case_toml(case, directive=None):
+    """vhdl_ls.toml of a case after a reload directive (same as gen::case_toml of the harness)"""
+    d = directive or ""
+    t = ""
+    for line in d.split("\n"):
+        if line.startswith("standard") or line.startswith("preferred_case"):
+            t += line + "\n"
+    t += "[libraries]\n"
+    for k, (lib, files) in enumerate(case["libs"]):
+        fs = list(files)
+        if "drop-last-file" in d and k + 1 == len(case["libs"]) and len(fs) > 1:
+            fs.pop()
+        t += "%s.files = [%s]\n" % (lib, ", ".join("'%s'" % x for x in fs))
+    if "extra-lib" in d:
+        t += "extra_lib.files = []\n"
+    if "lint-table" in d:
+        t += "\n[lint]\nunused = 'error'\nduplicate = false\n"
+    return t
+
+RELOADS = ['standard = "2019"', 'standard = "1993"', 'preferred_case = "upper"', "lint-table", 'standard = "2008"', "extra-lib",
+           'standard = "2019"\npreferred_case = "lower"', "drop-last-file", 'standard = "1993"\nlint-table']
+
 FULL_CAPS = {"textDocument": {"publishDiagnostics": {"relatedInformation": True},
                               "documentSymbol": {"hierarchicalDocumentSymbolSupport": True},
                               "completion": {"completionItem": {"snippetSupport": True}}},
@@ -524,9 +549,7 @@ def lsp_case(binpath, case, wsroot, libs_std, rng_seed, max_cursors, counters, s
     has_toml = variant.get("toml", True)
     if has_toml:
         with open(os.path.join(wsroot, "vhdl_ls.toml"), "w") as f:
-            f.write("[libraries]\n")
-            for lib, files in case["libs"]:
-                f.write("%s.files = [%s]\n" % (lib, ", ".join("'%s'" % x for x in files)))
+            f.write(case_toml(case))
     # own / none: an empty library configuration (the project maps library std itself, or has none)
     libs = lsp.VHDL_LIBRARIES if case["std"] == "full" else (libs_std if case["std"] == "std" else os.path.join(libs_std, "none"))
     env = dict(os.environ)
@@ -683,7 +706,17 @@ def lsp_case(binpath, case, wsroot, libs_std, rng_seed, max_cursors, counters, s
                 old_positions.append((name, rg["start"]["line"], rg["start"]["character"]))
             remember_symbols(name, sy.get("children"))
 
-    def queries(name, step, focus=None, light=False):
+    last_edited = [case["files"][0][0]]
+
+    def reload_config(directive):
+        state["req"] = "workspace/didChangeWatchedFiles (vhdl_ls.toml rewritten: %s)" % directive.replace("\n", "; ")
+        with open(os.path.join(wsroot, "vhdl_ls.toml"), "w") as f:
+            f.write(case_toml(case, directive))
+        ls.notify("workspace/didChangeWatchedFiles", {"changes": [{"uri": lsp.uri(os.path.join(wsroot, "vhdl_ls.toml")), "type": 2}]})
+        check_diags(ls.sync(timeout=180.0))
+        counters["reloads"] = counters.get("reloads", 0) + 1
+
+    def queries(name, step, focus=None, light=False, nocursors=False):
         dc = docs[name]
         u = lsp.uri(os.path.join(wsroot, name))
         td = {"uri": u}
@@ -694,6 +727,8 @@ def lsp_case(binpath, case, wsroot, libs_std, rng_seed, max_cursors, counters, s
             cur = [b for b in bs if b[0] == focus] + cur[:2]
         nl = len(dc.lines())
         cur += [(nl + 3, 1), (0, 2 ** 31 - 1), (2 ** 31 - 1, 0), (4294967295, 4294967295)]
+        if nocursors:
+            cur = []
         for (l, c) in cur:
             state["cursor"] = [name, l, c]
             counters["cursors"] += 1
@@ -759,8 +794,15 @@ def lsp_case(binpath, case, wsroot, libs_std, rng_seed, max_cursors, counters, s
             state["cursor"] = None
             ver += 1
             n = e["file"]
+            if (e.get("kind") or "").startswith("reload-config"):
+                if has_toml:
+                    reload_config(e["text"])
+                    for nn in names:
+                        queries(nn, k + 1, nocursors=(nn != last_edited[0]))
+                continue
             if n not in docs:
                 continue
+            last_edited[0] = n
             ch = {"text": e["text"]}
             if e["range"] is not None:
                 r = e["range"]
@@ -772,15 +814,29 @@ def lsp_case(binpath, case, wsroot, libs_std, rng_seed, max_cursors, counters, s
             counters["states"] += 1
             # the batch families (70-700 whole-document changes): every state is analysed and its diagnostics checked,
             # the queries run at every 8th state
-            if variant.get("reload") and has_toml and k == 1:
-                # configuration reload in the middle of the session
-                state["req"] = "workspace/didChangeWatchedFiles"
-                ls.notify("workspace/didChangeWatchedFiles", {"changes": [{"uri": lsp.uri(os.path.join(wsroot, "vhdl_ls.toml")), "type": 2}]})
+            if variant.get("reload") and has_toml and k in (1, 5) and not case["family"].endswith("-batch"):
+                # an UNSAVED edit that makes the buffer shorter than the file on disk, then vhdl_ls.toml is rewritten (another
+                # key every time) and reloaded; every answer must refer to the client's text; afterwards the text is restored
+                keep = docs[n].text
+                cut = docs[n].text[:len(docs[n].text) * 3 // 5]
+                lines_ = cut.split("\n")
+                ver += 1
+                rg = [len(lines_) - 1, u16len(lines_[-1]), 4294967295, 0]
+                docs[n].change(rg, "")
+                ls.notify("textDocument/didChange", {"textDocument": {"uri": lsp.uri(os.path.join(wsroot, n)), "version": ver},
+                          "contentChanges": [{"range": {"start": {"line": rg[0], "character": rg[1]}, "end": {"line": rg[2], "character": rg[3]}}, "text": ""}]})
+                check_diags(ls.sync(timeout=180.0))
+                reload_config(RELOADS[(rng_seed + k) % len(RELOADS)])
+                queries(n, k + 1)
+                ver += 1
+                docs[n].change(None, keep)
+                ls.notify("textDocument/didChange", {"textDocument": {"uri": lsp.uri(os.path.join(wsroot, n)), "version": ver},
+                                                     "contentChanges": [{"text": keep}]})
                 check_diags(ls.sync(timeout=180.0))
             if not case["family"].endswith("-batch") or k % 8 == 0:
                 stale(n)
-                queries(n, k + 1, focus=(e["range"][0] if case["family"] in ("cycles", "corpus") and e["range"] else None),
-                        light=(case["family"] == "cycles" and k % 8 != 0))
+                queries(n, k + 1, focus=(e["range"][0] + (1 if case["family"] == "xunit" else 0) if case["family"] in ("cycles", "corpus", "xunit") and e["range"] else None),
+                        light=(case["family"] in ("cycles", "xunit") and k % 8 != 0))
         ls.shutdown()
     except lsp.ServerDied as ex:
         try:
@@ -833,7 +889,7 @@ def lsp_stage(res, fnd, cases, d, max_cursors):
     os.makedirs(os.path.join(libs_std, "none"), exist_ok=True)
     with open(os.path.join(libs_std, "none", "vhdl_ls.toml"), "w") as f:
         f.write("[libraries]\n")
-    counters = {"requests": 0, "cursors": 0, "states": 0, "locations": 0, "diagnostics": 0, "completion_items": 0, "cases": 0, "stale_resolves": 0}
+    counters = {"requests": 0, "cursors": 0, "states": 0, "locations": 0, "diagnostics": 0, "completion_items": 0, "cases": 0, "stale_resolves": 0, "reloads": 0}
     lock = threading.Lock()
     todo = list(enumerate(cases))
 
@@ -943,6 +999,17 @@ def main(tier, replay=None):
                 s_, _a, _r = run_harness(res, f2, hbin, ["cases", cyc, os.path.join(d, "cycles.out"), os.path.join(d, "work_cyc"), "8", "40"],
                                          os.path.join(d, "cycles.out"), "type cycles", 600, rayon=2, regen=lambda i: cyc_cases.get(i))
                 summaries["cycles"] = s_
+            # cross-unit combinations: attribute / configuration specifications, aliases, bodies, external names ... whose
+            # target lives in another design unit, reached by use clause, selected name, alias, alias of alias
+            xu = os.path.join(d, "xunit.json")
+            run([hbin, "famcases", "xunit-all" if tier == "thorough" else "xunit", str(seed()), xu], timeout=120)
+            if os.path.exists(xu):
+                xu_cases = {c["id"]: c for c in json.load(open(xu))}
+                f3 = Findings(res)
+                iso_fnd.append(f3)
+                s_, _a, _r = run_harness(res, f3, hbin, ["cases", xu, os.path.join(d, "xunit.out"), os.path.join(d, "work_xu"), "8", "40"],
+                                         os.path.join(d, "xunit.out"), "cross-unit", 600, rayon=2, regen=lambda i: xu_cases.get(i))
+                summaries["xunit"] = s_
         iso_thread = threading.Thread(target=run_isolated)
         iso_thread.start()
         if corpus_cases:
@@ -994,6 +1061,10 @@ def main(tier, replay=None):
             lsp_cases += pick[seed() % max(1, len(pick))::max(1, len(pick) // npick)][:npick]
             lsp_cases += [c for c in cc if "access-via-alias" in c["id"] and "-shared" not in c["id"]][:1]
             lsp_cases += [c for c in cc if "-all-" in c["id"]][:1]
+        xu = os.path.join(d, "xunit.json")
+        if os.path.exists(xu):
+            xc = json.load(open(xu))
+            lsp_cases += xc[seed() % len(xc):][:1]
         for c in corpus_cases:
             if c["id"] in ("F28-typed-into-standard", "F27-std_logic_1164-is-entity", "F5-lexer-hang", "F4-deadlock", "F3-stale-lint",
                            "dup-all-units-duplicated", "F55-signed-bitstring-len0", "F59-access-to-itself-completion"):
@@ -1064,7 +1135,12 @@ def main(tier, replay=None):
         "selected, attribute names, allocators, completion after every token of the line), alone and all together. Every LSP "
         "session runs under one of 8 server variants (--no-lint, with/without --silent, client capabilities full / default / "
         "none, initializationOptions nonProjectFiles analyze / ignore / illegal, with / without vhdl_ls.toml, configuration reload "
-        "in mid-session), rotating with the seed; semantic tokens must lie in the document AND cover whole lexical elements of the "
+        "in mid-session after an unsaved shrinking edit: vhdl_ls.toml REWRITTEN over every key — standard 1993/2008/2019, "
+        "preferred_case, [lint] table, library added, file dropped), rotating with the seed; the random histories themselves contain "
+        "such reload steps after shrinking edits (Project::update_config in process). Family xunit (own process): for 20 kinds of "
+        "entity of another design unit x 25 decorating / completing / referring constructs (attribute specifications incl. all / "
+        "others / signatures, configuration specifications, aliases of aliases, bodies and full declarations, use, package instance, "
+        "external name, disconnect, user attributes) x access path (use clause, selected name, local alias, alias of alias); semantic tokens must lie in the document AND cover whole lexical elements of the "
         "current text. Edits are applied through Source::change (7/8 ranged, 1/8 whole document) + update_source + analyse. "
         "After every analysis: diagnostics, then for the edited file (+1 other; all files at the first and last state) document "
         "symbols, semantic tokens, workspace symbols, unresolved references, and at <=48 cursors (2/3 within 2 lines of the edit, "
